@@ -11,7 +11,7 @@ import ticc_util as tu
 from common import show_list
 
 LEVEL = "proof"
-LEAN_PROPS = ["FastTicc.Props.C13"]
+LEAN_PROPS = ["FastTicc.Props.C13", "FastTicc.Props.C13b"]
 LEAN_HELPERS = ["FastTicc.Proofs.Heap"]
 RULE = ("random operation histories (assign, shallow/deep copy, repopulate, statistics, optimise, relabel; length <= 25) "
         "on real ModelState objects, replayed on the heap model; after EVERY step the canonical dump of ALL states "
